@@ -782,6 +782,17 @@ def _emit_expr(v: Union[int, float, str]) -> str:
     return str(v)
 
 
+def _emit_millis_decl(indent: str, name: str, value: Union[int, float, str]) -> List[str]:
+    """Declare ``unsigned long name`` holding a millisecond count; a negative count means no wait."""
+
+    if isinstance(value, (int, float)) and not isinstance(value, bool):
+        return [f"{indent}unsigned long {name} = static_cast<unsigned long>({_emit_expr(max(value, 0))});"]
+    return [
+        f"{indent}long {name}_raw = static_cast<long>({_emit_expr(value)});",
+        f"{indent}unsigned long {name} = ({name}_raw < 0L) ? 0UL : static_cast<unsigned long>({name}_raw);",
+    ]
+
+
 def _format_float(value: float) -> str:
     """Format a float literal suitable for C++ source emission."""
 
@@ -2367,9 +2378,8 @@ def _emit_block(
             lines.append(f"{indent}    {last_var} = __redu_freq;")
             lines.append(f"{indent}  }}")
             if getattr(node, "duration_ms", None) is not None:
-                duration_expr = _emit_expr(node.duration_ms) if node.duration_ms is not None else "0"
-                lines.append(
-                    f"{indent}  unsigned long __redu_duration = static_cast<unsigned long>({duration_expr});"
+                lines.extend(
+                    _emit_millis_decl(f"{indent}  ", "__redu_duration", node.duration_ms if node.duration_ms is not None else 0)
                 )
                 lines.append(f"{indent}  if (__redu_duration > 0UL) {{")
                 lines.append(f"{indent}    delay(__redu_duration);")
@@ -2398,12 +2408,8 @@ def _emit_block(
             else:
                 lines.append(f"{indent}  float __redu_freq_target = {last_var};")
             lines.append(f"{indent}  if (__redu_freq_target < 0.0f) {{ __redu_freq_target = 0.0f; }}")
-            lines.append(
-                f"{indent}  unsigned long __redu_on_ms = static_cast<unsigned long>({_emit_expr(node.on_ms)});"
-            )
-            lines.append(
-                f"{indent}  unsigned long __redu_off_ms = static_cast<unsigned long>({_emit_expr(node.off_ms)});"
-            )
+            lines.extend(_emit_millis_decl(f"{indent}  ", "__redu_on_ms", node.on_ms))
+            lines.extend(_emit_millis_decl(f"{indent}  ", "__redu_off_ms", node.off_ms))
             lines.append(f"{indent}  int __redu_times = static_cast<int>({_emit_expr(node.times)});")
             lines.append(f"{indent}  if (__redu_times < 0) {{ __redu_times = 0; }}")
             lines.append(f"{indent}  for (int __redu_i = 0; __redu_i < __redu_times; ++__redu_i) {{")
@@ -2438,14 +2444,13 @@ def _emit_block(
             pin_code, state_var, current_var, last_var = _ensure_buzzer_tracking(node.name)
             start_expr = _emit_expr(node.start_hz)
             end_expr = _emit_expr(node.end_hz)
-            duration_expr = _emit_expr(node.duration_ms)
             steps_expr = _emit_expr(node.steps)
             lines.append(f"{indent}{{")
             lines.append(f"{indent}  float __redu_start = static_cast<float>({start_expr});")
             lines.append(f"{indent}  if (__redu_start < 0.0f) {{ __redu_start = 0.0f; }}")
             lines.append(f"{indent}  float __redu_end = static_cast<float>({end_expr});")
             lines.append(f"{indent}  if (__redu_end < 0.0f) {{ __redu_end = 0.0f; }}")
-            lines.append(f"{indent}  unsigned long __redu_total = static_cast<unsigned long>({duration_expr});")
+            lines.extend(_emit_millis_decl(f"{indent}  ", "__redu_total", node.duration_ms))
             lines.append(f"{indent}  int __redu_steps = static_cast<int>({steps_expr});")
             lines.append(f"{indent}  if (__redu_steps < 1) {{ __redu_steps = 1; }}")
             lines.append(
